@@ -38,12 +38,19 @@ def run (ctx):
   # ---- locate the dispatch loop -------------------------------------------------
   g = q.cfg_of(raise_)
   loops = []
+  entry_v = None
   for (st, h, af) in g.loop_nodes:
-    if isinstance(st, ast.For) and isinstance(st.target, ast.Tuple) and len(st.target.elts) == 4: loops.append((st, h, af))
+    if isinstance(st, ast.For) and isinstance(st.target, ast.Tuple) and len(st.target.elts) == 4: loops.append((st, h, af, st.target))
+    elif isinstance(st, ast.For) and isinstance(st.target, ast.Name):
+      # `for entry in handlers: (priority, handler, once, eid) = entry`
+      for b_ in st.body[:2]:
+        if isinstance(b_, ast.Assign) and len(b_.targets) == 1 and isinstance(b_.targets[0], ast.Tuple) and len(b_.targets[0].elts) == 4 and isinstance(b_.value, ast.Name) and b_.value.id == st.target.id \
+           and all(isinstance(e_, ast.Name) for e_ in b_.targets[0].elts):
+          loops.append((st, h, af, b_.targets[0])); entry_v = st.target.id; break
   ctx.floor('dispatch loop', len(loops), 1)
   if not loops: return
-  st, head, after = loops[0]
-  names = [e.id for e in st.target.elts]          # (priority, handler, once, eid)
+  st, head, after, tgt_ = loops[0]
+  names = [e.id for e in tgt_.elts]          # (priority, handler, once, eid)
   pr_v, h_v, once_v, eid_v = names
   # ---- D1 -----------------------------------------------------------------------
   it = st.iter
@@ -205,6 +212,39 @@ def run (ctx):
           continue
         ctx.ob('R-AGREE', rem, "filter `%s` compares the right tuple slot" % norm(cond), idx == want and isinstance(cond.ops[0], ast.NotEq),
                "slot %s, != " % idx if idx == want else "filter uses slot %s where entries are (priority, handler, once, eid)" % idx, (mod, n), 'D4')
+  # by evaluation on a sample table: removing by bare id removes exactly that entry - for the ids the generator really hands out
+  # (its first one in particular: an id that is falsy must not be mistaken for "nothing to remove")
+  gen = mod.funcs.get('_generateEventID')
+  first = None
+  if gen is not None:
+    ctx.analysed(gen); gg_ = q.cfg_of(gen)
+    init_ = {}
+    for nm_, v_ in mod.assigns.items():
+      k_ = q.try_int(v_) if v_ is not None else None
+      if k_ is not None: init_[nm_] = k_
+      if isinstance(v_, ast.Call) and norm(v_.func) in ('itertools.count', 'count'):
+        a0_ = q.try_int(v_.args[0]) if v_.args else (q.try_int(kwarg(v_, 'start')) if kwarg(v_, 'start') is not None else 0)
+        if a0_ is not None: init_['next(%s)' % nm_] = a0_
+    vals_ = set()
+    for p_, e_ in q.paths_under(repo, mod, gg_, q.Env(dict(init_)), gg_.entry, [n_ for n_ in gg_.nodes if n_.kind == 'return'], None, limit=10):
+      try: vals_.add(q.eval_env2(repo, mod, p_[-1].ast.value, e_, None))
+      except Exception: vals_.add('?')
+    if len(vals_) == 1 and isinstance(list(vals_)[0], int): first = list(vals_)[0]
+  if first is None:
+    ctx.undecided('R-AGREE', rem, "removing by bare id removes exactly that entry (first generated id)", "the first event id could not be evaluated", gen or rem, 'D4')
+  else:
+    tbl = {'T': [(0, 'h1', False, first), (0, 'h2', False, first + 1)], 'U': [(0, 'h3', False, first + 2)]}
+    env = q.Env({rem.params[1]: first, (rem.params[2] if len(rem.params) > 2 else 'eventType'): None, 'self._eventMixin_handlers': tbl}, [((lambda e: isinstance(e, ast.Call) and call_name(e) == '_eventMixin_init'), None)])
+    outs = []
+    for p_, e_ in q.paths_under(repo, mod, rg, env, rg.entry, [rg.exit], em, limit=60): outs.append(e_.exact.get('self._eventMixin_handlers'))
+    want = {'T': [(0, 'h2', False, first + 1)], 'U': [(0, 'h3', False, first + 2)]}
+    if not outs or any(not isinstance(o_, dict) for o_ in outs):
+      ctx.undecided('R-AGREE', rem, "removing by bare id removes exactly that entry (first generated id)", "removeListener not evaluable on the sample table", rem, 'D4')
+    else:
+      good = all(o_ == want for o_ in outs)
+      ctx.ob('R-AGREE', rem, "removing by bare id removes exactly that entry (first generated id)", good, "removeListener(%d) on a sample table" % first if good else
+             "the id generator's first id is %d; removeListener(%d) on a table holding ids %d..%d leaves %s (expected the entry with id %d gone and nothing else): the first listener created in the process can never be "
+             "removed by id - a one-shot handler or one that returns EventRemove / False is invoked on every later raise" % (first, first, first, first + 2, outs[0], first), rem, 'D4')
   # a removal must not hide behind a short-circuit: `altered = altered or self._remove(...)` stops removing after the first hit
   def changes_table (fn, depth=0):
     if list(q.mutations_of_attr(fn.node, TABLE)) or [1 for t, v_, s_, k in q.stores_in(fn.node) if isinstance(t, ast.Subscript) and q.mentions_attr(t, TABLE)]: return True
